@@ -11,10 +11,13 @@ import (
 )
 
 // C09 — spec defaults and examples are judged exactly as their schema judges them.
-type c09 struct{ base }
+type c09 struct {
+	base
+	session *sut.SpecSession
+}
 
 func init() {
-	lib.Register(&c09{base{
+	lib.Register(&c09{base: base{
 		id: "C09", level: "exploration",
 		technique: "runtime single-fault differential monitor: into a clean generated specification one default (or example) is planted at a chosen location, once with a value its own schema accepts and once with a value it rejects; the real SpecValidator runs on the base, the good and the bad twin and the monitor demands: bad default => error, bad example => additional warning, good value => no error and no additional warning",
 		rule: "locations: definitions, inline body-parameter and response schemas at depth 0-4 through properties / items / tuple items / additionalProperties / allOf members; simple parameters and response headers and their nested items; per-media-type response examples; member, parameter and definition names drawn from a pool which includes names equal to (the tail of) their ancestors; distinct = FNV-64 of the bad twin's text; non-trivial = distinct (location kind chain, depth, default-or-example) shapes are counted through tags; every case is non-trivial (it plants a fault)",
@@ -285,7 +288,10 @@ func subset(a, b []string) (missing []string) {
 }
 
 func (p *c09) Run(w *lib.Worker, idx int, r *lib.Rand) lib.Case {
-	g := &gen.SpecGen{R: r, Tag: fmt.Sprintf("e%d", idx)}
+	if p.session == nil {
+		p.session = sut.NewSpecSession()
+	}
+	g := &gen.SpecGen{R: r, Tag: fmt.Sprintf("e%d", idx), NoRefs: idx%3 == 2}
 	doc := g.Clean()
 	pl := p.plant(r, g, doc)
 	cfg := sut.SpecOpts{Continue: idx%2 == 0, Strict: true}
@@ -332,6 +338,15 @@ func (p *c09) Run(w *lib.Worker, idx int, r *lib.Rand) lib.Case {
 		}
 		c.Viol = &lib.Violation{What: fmt.Sprintf("%s [%s at %s, chain %s, %+v] doc=%s", what, pl.kind, pl.where, strings.Join(pl.chain, ">"), cfg, badText), Detail: sample}
 		return c
+	}
+	// the same judgement from a validator object which has validated other documents before
+	if reused := p.session.Validate(badText, cfg); reused.Panic != "" || reused.Key() != badO.Key() {
+		c.Evals++
+		if !pl.skipped {
+			sample["reused_validator_outcome"] = reused
+			c.Viol = &lib.Violation{What: fmt.Sprintf("a SpecValidator which validated other documents before judges the planted %s differently from a fresh one: fresh=%v reused=%v (panic=%q) [%s at %s] doc=%s", pl.kind, badO.Errors, reused.Errors, reused.Panic, pl.kind, pl.where, badText), Detail: sample}
+			return c
+		}
 	}
 	// a value the schema accepts: no error, no additional warning
 	if !good.Valid {
